@@ -36,6 +36,7 @@ def run_tv(res, families, modes, known_roles=(), note=""):
                                 timeout_ms=10000 if res.tier == "quick" else 120000)
     by = {p.meta["name"]: p for p in progs}
     n_ok = n_unsup = n_inc = n_cerr = 0
+    known_hits = []
     unsupported, findings_new, samples = [], 0, []
     for r in results:
         if r["status"] == "ok":
@@ -56,7 +57,7 @@ def run_tv(res, families, modes, known_roles=(), note=""):
             if role in known_roles and f["confirmed"]:
                 if role not in seen_roles:
                     seen_roles.add(role)
-                    res.known.append((role, r["name"], f["detail"]))
+                    known_hits.append((role, r["name"], f["detail"]))
                 continue
             if f["confirmed"]:
                 findings_new += 1
@@ -69,9 +70,8 @@ def run_tv(res, families, modes, known_roles=(), note=""):
                                         f"the real JIT does not show it ({str(f['replay'])[:200]}): encoder/reference problem, not reported")
     # one KNOWN-FINDING line per role
     roles = {}
-    for role, name, detail in res.known:
+    for role, name, detail in known_hits:
         roles.setdefault(role, []).append(name)
-    res.known = []
     for role, names in roles.items():
         text = next((k["text"] for k in known_findings() if k.get("role") == role), role)
         res.known_finding(f"{text} [{len(names)} corpus programs, e.g. {names[0]}]")
